@@ -775,3 +775,9 @@ PROPS["C02"]["scope"] += "; mpsc send / try_send (V): likewise"
 
 PROPS["C11"]["technique"] = ("contract-based deductive verification: Verus (requires/ensures/loop invariants, lemma) on the bodies of PctScheduler::new_execution / "
                              "next_task extracted mechanically from /repo on every run; no Kani part")
+
+# vp check (request 5): `./check C02 --tier quick` exceeded 900 s on the reference machine. The heaviest obligations C02 merely shares with their home
+# properties (where they stay in the quick tier) move to C02's thorough tier; C02's own obligations (incl. the three F5 known-finding ones) stay quick.
+_C02_SHARED_HEAVY = {"C04.mutex.try_lock_free", "C04.mutex.unlock_wakes_waiter", "C07.thread.join_blocks_until_finished", "C07.thread.join_finished",
+                     "C18.sem.try_acquire_fair", "C05.thread.park", "C05.thread.unpark"}
+PROPS["C02"]["kani"] = [dict(o, tier="thorough") if o["name"] in _C02_SHARED_HEAVY else o for o in PROPS["C02"]["kani"]]
